@@ -444,6 +444,8 @@ impl<'l> Iterator for Parser<'l>
 					Err(e) =>
 					{
 						self.0.clear();
+						// also drop what `peek` already lexed, nothing may follow an error
+						while self.0.next().is_some() {}
 						Some(Err(e))
 					},
 				}
